@@ -92,6 +92,34 @@ def _child(d, spec):
         import faulthandler
         faulthandler.enable(file=sys.stderr)
 
+        # earlier runs in the same directory and environment (e.g. the same paths holding other contents): each in a child of
+        # its own; afterwards the listed files get their final contents back, with the time stamps they had
+        for step in spec.get('before') or []:
+            for rel, text in (step.get('files') or {}).items():
+                with open(os.path.join(d, rel), 'w') as f_:
+                    f_.write(text)
+            pid_ = os.fork()
+            if pid_ == 0:
+                try:
+                    sys.argv = ['bespokeasm'] + [a.replace('{SCRATCH}', d) for a in step['argv']]
+                    import bespokeasm.__main__ as bm0
+                    bm0.entry_point()
+                except BaseException:
+                    pass
+                finally:
+                    os._exit(0)
+            os.waitpid(pid_, 0)
+            for rel in step.get('remove_after') or []:
+                try:
+                    os.remove(os.path.join(d, rel))
+                except OSError:
+                    pass
+            for rel in (step.get('files') or {}):
+                st_ = os.stat(os.path.join(d, rel))
+                with open(os.path.join(d, rel), 'w') as f_:
+                    f_.write(spec['files'][rel])
+                os.utime(os.path.join(d, rel), ns=(st_.st_atime_ns, st_.st_mtime_ns))
+
         from vf import probes
         probe_state = probes.install(spec, d)
 
